@@ -65,6 +65,7 @@ is the model's PREDICTION of what origin and client receive (relay + wire + read
 appended when the model's reader does not read the real bytes to the same message. -/
 def relayOne (i : Nat) (tok : String) : Option String :=
   if tok = "-" then some s!"{i}:unserved" else
+  if tok = "u" then some s!"{i}:unreachable" else
   match tok.splitOn ":" with
   | [m, rq, up, rs, dn] => do
     let m ← unhex m; let rq ← unhex rq; let up ← unhex up; let rs ← unhex rs; let dn ← unhex dn
